@@ -11,13 +11,23 @@ CONSTANTS Cmds,      \* sequence of commands, each a sequence of file lengths, e
           MCap,      \* capacity of serverMessages (10 in the code)
           WCap,      \* messages in flight server -> client
           OutCap,    \* lines the stdout pipe holds before the client blocks
-          KF_FlushGiveUp  \* named deviation: flush() returns after its bounded wait with queues non-empty
+          KF_FlushGiveUp, \* named deviation: flush() returns after its bounded wait with queues non-empty
+          KF_TimeoutFromFlush \* named deviation (repaired): the 5 s limit of the close handshake runs from the moment flush()
+                          \* returned, although the last message may still be in the hands of the transport (a Write
+                          \* blocked on a full SSH window, the rest of a long line in readBuf): the connection is closed
+                          \* over undelivered data.  Repaired: the limit runs from the moment Read() handed out ".syn",
+                          \* i.e. after the transport has written everything before it.
 
 K == Len(Cmds)
 Files(c) == 1..Len(Cmds[c])
 VARIABLES sent, cmdWire, active, cmdState, rd, lines, smsgs,
-          nFlush, nSynPending, wire, outbuf, delivered, cstate, done
-vars == <<sent, cmdWire, active, cmdState, rd, lines, smsgs, nFlush, nSynPending, wire, outbuf, delivered, cstate, done>>
+          nFlush, nSynPending, wire, outbuf, delivered, cstate, done,
+          pend,       \* the message Read() returned and the transport (io.Copy: channel.Write) has not written yet; <<>> or <<m>>
+          closed,     \* the server closed the connection (shutdown enforced after the handshake limit)
+          synEnq,     \* shutdown() has queued ".syn close connection" (the handshake is under way)
+          synTaken    \* Read() has handed ".syn" to the transport
+conn == <<pend, closed, synEnq, synTaken>>
+vars == <<sent, cmdWire, active, cmdState, rd, lines, smsgs, nFlush, nSynPending, wire, outbuf, delivered, cstate, done, conn>>
 
 Init == /\ sent = 0 /\ cmdWire = <<>> /\ active = 0
         /\ cmdState = [c \in 1..K |-> "unsent"]
@@ -26,11 +36,12 @@ Init == /\ sent = 0 /\ cmdWire = <<>> /\ active = 0
         /\ wire = <<>> /\ outbuf = 0
         /\ delivered = [c \in 1..K |-> [f \in Files(c) |-> 0]]
         /\ cstate = "run" /\ done = FALSE
+        /\ pend = <<>> /\ closed = FALSE /\ synEnq = FALSE /\ synTaken = FALSE
 
 \* client: connectors' "for _, command := range commands { SendMessage }" through the unbuffered commands channel
 ClientSend == /\ cstate = "run" /\ sent < K /\ cmdWire = <<>>
               /\ sent' = sent + 1 /\ cmdWire' = <<sent + 1>>
-              /\ UNCHANGED <<active, cmdState, rd, lines, smsgs, nFlush, nSynPending, wire, outbuf, delivered, cstate, done>>
+              /\ UNCHANGED <<active, cmdState, rd, lines, smsgs, nFlush, nSynPending, wire, outbuf, delivered, cstate, done, conn>>
 
 \* server: baseHandler.Write -> handleCommand -> handleUserCommand: incrementActiveCommands, go command.Start
 ServerRecvCmd == /\ cmdWire # <<>> /\ ~done
@@ -38,14 +49,14 @@ ServerRecvCmd == /\ cmdWire # <<>> /\ ~done
                       /\ cmdState' = [cmdState EXCEPT ![c] = "running"]
                       /\ active' = active + 1
                  /\ cmdWire' = <<>>
-                 /\ UNCHANGED <<sent, rd, lines, smsgs, nFlush, nSynPending, wire, outbuf, delivered, cstate, done>>
+                 /\ UNCHANGED <<sent, rd, lines, smsgs, nFlush, nSynPending, wire, outbuf, delivered, cstate, done, conn>>
 
 \* reader+filter of one file: cat mode blocks on a full queue (canSkipLines = FALSE)
 ReaderStep(c, f) == /\ cmdState[c] = "running" /\ ~done
                     /\ rd[c][f] < Cmds[c][f] /\ Len(lines) < QCap
                     /\ lines' = Append(lines, <<c, f, rd[c][f] + 1>>)
                     /\ rd' = [rd EXCEPT ![c][f] = @ + 1]
-                    /\ UNCHANGED <<sent, cmdWire, active, cmdState, smsgs, nFlush, nSynPending, wire, outbuf, delivered, cstate, done>>
+                    /\ UNCHANGED <<sent, cmdWire, active, cmdState, smsgs, nFlush, nSynPending, wire, outbuf, delivered, cstate, done, conn>>
 
 \* commandFinished(): decrementActiveCommands() is atomic.AddInt32(-1) followed by a separate atomic.LoadInt32; the
 \* command whose load returns 0 runs shutdown() (flush first).  Two actions, so that TLC explores the window between
@@ -54,57 +65,80 @@ CmdDec(c) == /\ cmdState[c] = "running"
              /\ \A f \in Files(c) : rd[c][f] = Cmds[c][f]
              /\ cmdState' = [cmdState EXCEPT ![c] = "dec"]
              /\ active' = active - 1
-             /\ UNCHANGED <<sent, cmdWire, rd, lines, smsgs, nFlush, nSynPending, wire, outbuf, delivered, cstate, done>>
+             /\ UNCHANGED <<sent, cmdWire, rd, lines, smsgs, nFlush, nSynPending, wire, outbuf, delivered, cstate, done, conn>>
 CmdLoad(c) == /\ cmdState[c] = "dec"
               /\ cmdState' = [cmdState EXCEPT ![c] = "finished"]
               /\ nFlush' = IF active = 0 THEN nFlush + 1 ELSE nFlush
-              /\ UNCHANGED <<sent, cmdWire, active, rd, lines, smsgs, nSynPending, wire, outbuf, delivered, cstate, done>>
+              /\ UNCHANGED <<sent, cmdWire, active, rd, lines, smsgs, nSynPending, wire, outbuf, delivered, cstate, done, conn>>
 CmdFinish(c) == CmdDec(c) \/ CmdLoad(c)
 
 FlushDrained == /\ nFlush > 0 /\ lines = <<>> /\ smsgs = <<>>
                 /\ nFlush' = nFlush - 1 /\ nSynPending' = nSynPending + 1
-                /\ UNCHANGED <<sent, cmdWire, active, cmdState, rd, lines, smsgs, wire, outbuf, delivered, cstate, done>>
+                /\ UNCHANGED <<sent, cmdWire, active, cmdState, rd, lines, smsgs, wire, outbuf, delivered, cstate, done, conn>>
 
 KFFlushGiveUp == /\ KF_FlushGiveUp /\ nFlush > 0 /\ (lines # <<>> \/ smsgs # <<>>)
                  /\ nFlush' = nFlush - 1 /\ nSynPending' = nSynPending + 1
-                 /\ UNCHANGED <<sent, cmdWire, active, cmdState, rd, lines, smsgs, wire, outbuf, delivered, cstate, done>>
+                 /\ UNCHANGED <<sent, cmdWire, active, cmdState, rd, lines, smsgs, wire, outbuf, delivered, cstate, done, conn>>
 
 \* shutdown(): go func() { serverMessages <- ".syn close connection" }
 SynEnqueue == /\ nSynPending > 0 /\ Len(smsgs) < MCap /\ ~done
-              /\ smsgs' = Append(smsgs, "syn") /\ nSynPending' = nSynPending - 1
-              /\ UNCHANGED <<sent, cmdWire, active, cmdState, rd, lines, nFlush, wire, outbuf, delivered, cstate, done>>
+              /\ smsgs' = Append(smsgs, "syn") /\ nSynPending' = nSynPending - 1 /\ synEnq' = TRUE
+              /\ UNCHANGED <<sent, cmdWire, active, cmdState, rd, lines, nFlush, wire, outbuf, delivered, cstate, done, pend, closed, synTaken>>
 
-\* baseHandler.Read: select over the non-empty queues, Go picks any ready case
-ServerReadLine == /\ ~done /\ lines # <<>> /\ Len(wire) < WCap
+\* baseHandler.Read: select over the non-empty queues, Go picks any ready case.  The transport (server.go: io.Copy(channel,
+\* handler)) calls Read, then Write, then Read again: with room on the wire both happen at once ...
+ServerReadLine == /\ ~done /\ lines # <<>> /\ Len(wire) < WCap /\ pend = <<>>
                   /\ wire' = Append(wire, Head(lines)) /\ lines' = Tail(lines)
-                  /\ UNCHANGED <<sent, cmdWire, active, cmdState, rd, smsgs, nFlush, nSynPending, outbuf, delivered, cstate, done>>
-ServerReadMsg == /\ ~done /\ smsgs # <<>> /\ Len(wire) < WCap
-                 /\ wire' = Append(wire, <<"syn">>) /\ smsgs' = Tail(smsgs)
-                 /\ UNCHANGED <<sent, cmdWire, active, cmdState, rd, lines, nFlush, nSynPending, outbuf, delivered, cstate, done>>
+                  /\ UNCHANGED <<sent, cmdWire, active, cmdState, rd, smsgs, nFlush, nSynPending, outbuf, delivered, cstate, done, conn>>
+ServerReadMsg == /\ ~done /\ smsgs # <<>> /\ Len(wire) < WCap /\ pend = <<>>
+                 /\ wire' = Append(wire, <<"syn">>) /\ smsgs' = Tail(smsgs) /\ synTaken' = TRUE
+                 /\ UNCHANGED <<sent, cmdWire, active, cmdState, rd, lines, nFlush, nSynPending, outbuf, delivered, cstate, done, pend, closed, synEnq>>
+\* ... and when the wire is full (the SSH window is used up: the client does not read) the message Read() returned sits in
+\* the blocked Write - it has left the queues flush() looks at, and it is not delivered yet
+ServerTakeLine == /\ ~done /\ lines # <<>> /\ Len(wire) = WCap /\ pend = <<>>
+                  /\ pend' = <<Head(lines)>> /\ lines' = Tail(lines)
+                  /\ UNCHANGED <<sent, cmdWire, active, cmdState, rd, smsgs, nFlush, nSynPending, wire, outbuf, delivered, cstate, done, closed, synEnq, synTaken>>
+ServerTakeMsg == /\ ~done /\ smsgs # <<>> /\ Len(wire) = WCap /\ pend = <<>>
+                 /\ pend' = << <<"syn">> >> /\ smsgs' = Tail(smsgs) /\ synTaken' = TRUE
+                 /\ UNCHANGED <<sent, cmdWire, active, cmdState, rd, lines, nFlush, nSynPending, wire, outbuf, delivered, cstate, done, closed, synEnq>>
+ServerWrite == /\ ~done /\ pend # <<>> /\ Len(wire) < WCap
+               /\ wire' = Append(wire, pend[1]) /\ pend' = <<>>
+               /\ UNCHANGED <<sent, cmdWire, active, cmdState, rd, lines, smsgs, nFlush, nSynPending, outbuf, delivered, cstate, done, closed, synEnq, synTaken>>
+\* shutdown(): no ".ack" within 5 s - "enforcing shutdown": done.Shutdown(), server.go closes the connection.  What the
+\* transport holds is gone; what is on the wire (in the client's SSH window buffer) can still be read by the client.
+ShutdownTimeout == /\ ~done /\ synEnq /\ (KF_TimeoutFromFlush \/ synTaken)
+                   /\ done' = TRUE /\ closed' = TRUE /\ pend' = <<>>
+                   /\ UNCHANGED <<sent, cmdWire, active, cmdState, rd, lines, smsgs, nFlush, nSynPending, wire, outbuf, delivered, cstate, synEnq, synTaken>>
 
 \* client baseHandler.Write -> handleMessage: print (blocks while the pipe is full) or hidden .syn
 ClientPrint == /\ cstate = "run" /\ wire # <<>> /\ Len(Head(wire)) = 3 /\ outbuf < OutCap
                /\ LET m == Head(wire) IN delivered' = [delivered EXCEPT ![m[1]][m[2]] = @ + 1]
                /\ outbuf' = outbuf + 1 /\ wire' = Tail(wire)
-               /\ UNCHANGED <<sent, cmdWire, active, cmdState, rd, lines, smsgs, nFlush, nSynPending, cstate, done>>
+               /\ UNCHANGED <<sent, cmdWire, active, cmdState, rd, lines, smsgs, nFlush, nSynPending, cstate, done, conn>>
 \* .syn: go SendMessage(".ack close connection"); h.Shutdown() -> connector terminate(): serverHandler.Shutdown(); cancel()
 ClientSyn == /\ cstate = "run" /\ wire # <<>> /\ Len(Head(wire)) = 1
              /\ cstate' = "term" /\ done' = TRUE /\ wire' = Tail(wire)
-             /\ UNCHANGED <<sent, cmdWire, active, cmdState, rd, lines, smsgs, nFlush, nSynPending, outbuf, delivered>>
+             /\ UNCHANGED <<sent, cmdWire, active, cmdState, rd, lines, smsgs, nFlush, nSynPending, outbuf, delivered, conn>>
 
+\* the connection was closed by the server and everything that had arrived is printed: the client ends
+ClientEOF == /\ cstate = "run" /\ closed /\ wire = <<>>
+             /\ cstate' = "term"
+             /\ UNCHANGED <<sent, cmdWire, active, cmdState, rd, lines, smsgs, nFlush, nSynPending, wire, outbuf, delivered, done, conn>>
 Terminated == cstate = "term"
 ConsumerRead == /\ outbuf > 0 /\ outbuf' = outbuf - 1
-                /\ UNCHANGED <<sent, cmdWire, active, cmdState, rd, lines, smsgs, nFlush, nSynPending, wire, delivered, cstate, done>>
+                /\ UNCHANGED <<sent, cmdWire, active, cmdState, rd, lines, smsgs, nFlush, nSynPending, wire, delivered, cstate, done, conn>>
 
 Stutter == Terminated /\ UNCHANGED vars
 Next == \/ Stutter \/ ClientSend \/ ServerRecvCmd \/ FlushDrained \/ KFFlushGiveUp \/ SynEnqueue
-        \/ ServerReadLine \/ ServerReadMsg \/ ClientPrint \/ ClientSyn \/ ConsumerRead
+        \/ ServerReadLine \/ ServerReadMsg \/ ServerTakeLine \/ ServerTakeMsg \/ ServerWrite \/ ShutdownTimeout
+        \/ ClientPrint \/ ClientSyn \/ ClientEOF \/ ConsumerRead
         \/ \E c \in 1..K : CmdFinish(c) \/ \E f \in Files(c) : ReaderStep(c, f)
 
 Fair == WF_vars(Next)
 Spec == Init /\ [][Next]_vars /\ WF_vars(ClientSend) /\ WF_vars(ServerRecvCmd) /\ WF_vars(FlushDrained)
              /\ WF_vars(SynEnqueue) /\ WF_vars(ServerReadLine) /\ WF_vars(ServerReadMsg) /\ WF_vars(ClientPrint)
-             /\ WF_vars(ClientSyn) /\ WF_vars(ConsumerRead)
+             /\ WF_vars(ClientSyn) /\ WF_vars(ConsumerRead) /\ WF_vars(ServerTakeLine) /\ WF_vars(ServerTakeMsg) /\ WF_vars(ServerWrite)
+             /\ WF_vars(ClientEOF)      \* (no fairness for ShutdownTimeout: a timer that may or may not expire first)
              /\ \A c \in 1..K : WF_vars(CmdDec(c)) /\ WF_vars(CmdLoad(c)) /\ \A f \in Files(c) : WF_vars(ReaderStep(c, f))
 
 \* Ref (C02): when the session has ended, every line of every requested file was printed exactly once
